@@ -98,6 +98,36 @@ theorem invAll_of_run (cfg : List (Indexer Id Res L)) (bk : Nat) (hnd : (cfg.map
   rw [h] at h'; cases h'
   exact hi
 
+/-- **The other read-only methods agree with the content.** What a handler's `key in index`,
+    `len(index)`, `bool(index)` and `for key in index` see is the key set of `Index.__items`; after any
+    history, a key is present there exactly when some object's latest documented contribution has a
+    value under it (`Store`s are never left empty, `no_empty_collections`, and hold exactly the
+    reference's values, `mirror`). So `key in index` can be used as "does any live, matching, not
+    excluded object map to this key". (The real `__contains__`/`__len__`/`__bool__` of `Index` and
+    `Store` are compared with the documented reference by the Python oracle after every event.) -/
+theorem key_present_iff (cfg : List (Indexer Id Res L)) (bk : Nat) (hnd : (cfg.map (·.id)).Nodup)
+    (evs : List (Event Id Res L K V O)) (s : State Id K V O)
+    (h : run cfg bk State.init evs = some s) (c : Indexer Id Res L) (hc : c ∈ cfg) (k : Option K) :
+    (aget k (s.ixs c.id).items).isSome ↔
+      ∃ o, (groupBy (fun o => (refRun cfg bk c o RefSt.init evs).contrib) k o).isSome := by
+  have hi := invAll_of_run cfg bk hnd evs s h
+  constructor
+  · intro hk
+    cases hst : aget k (s.ixs c.id).items with
+    | none => simp [hst] at hk
+    | some st =>
+      cases st with
+      | nil => exact absurd rfl ((hi c.id).storeNe k [] hst)
+      | cons p rest =>
+        refine ⟨p.1, ?_⟩
+        rw [← mirror cfg bk hnd evs s h c hc k p.1]
+        simp [Index.val, hst, aget]
+  · rintro ⟨o, ho⟩
+    rw [← mirror cfg bk hnd evs s h c hc k o] at ho
+    cases hst : aget k (s.ixs c.id).items with
+    | none => simp [Index.val, hst] at ho
+    | some st => simp
+
 /-! #### the keep/remove table, one processed event at a time -/
 
 section Table
